@@ -82,7 +82,8 @@ class PolyhedralTerm(Term):
         return res
 
     def __hash__(self) -> int:
-        return hash(str(self))
+        # 0.0 and -0.0 are equal constants but print differently; equal terms must hash equally
+        return hash(str(PolyhedralTerm(self.variables, self.constant + 0.0)))
 
     def __repr__(self) -> str:
         return "<Term {0}>".format(self)
